@@ -79,6 +79,8 @@ func driveC01(t *testing.T, out *vEmitter) {
 					o.EmailDomains = append([]string(nil), v.emailDomains...)
 					o.Providers[0].AllowedGroups = v.allowedGroups
 					o.Providers[0].OIDCConfig.InsecureSkipNonce = true
+					// two audience claims, in this order: the first one present in a token decides
+					o.Providers[0].OIDCConfig.AudienceClaims = []string{"aud", "azp"}
 					if v.skipRoute {
 						o.SkipAuthRoutes = []string{"GET=^/public"}
 					}
@@ -163,6 +165,8 @@ func driveC01(t *testing.T, out *vEmitter) {
 				{label: "valid-bearer", auth: "Bearer " + bearerOK, bearer: &vIdent{"carol@example.com", []string{"admins"}}},
 				{label: "bearer-other-key", auth: "Bearer " + vJWT(vKeyRSA2, "RS256", vClaims("carol@example.com", nil))},
 				{label: "bearer-wrong-aud", auth: "Bearer " + vJWT(vKeyRSA, "RS256", vClaims("carol@example.com", map[string]interface{}{"aud": "other"}))},
+				{label: "bearer-foreign-aud-own-azp", auth: "Bearer " + vJWT(vKeyRSA, "RS256", vClaims("carol@example.com", map[string]interface{}{"aud": "another-service", "azp": clientID}))},
+				{label: "bearer-foreign-aud-list-own-azp", auth: "Bearer " + vJWT(vKeyRSA, "RS256", vClaims("carol@example.com", map[string]interface{}{"aud": []interface{}{"another-service"}, "azp": clientID}))},
 				{label: "bearer-expired", auth: "Bearer " + vJWT(vKeyRSA, "RS256", vClaims("carol@example.com", map[string]interface{}{"exp": time.Now().Unix() - 100}))},
 				{label: "bearer-foreign-issuer", auth: "Bearer " + vJWT(vKeyRSA, "RS256", vClaims("carol@example.com", map[string]interface{}{"iss": "https://other-idp.example"}))},
 				{label: "bearer-alg-none", auth: "Bearer " + vJWT(vKeyRSA, "none", vClaims("carol@example.com", nil))},
